@@ -2,6 +2,7 @@ import Lean.Data.Json
 import CoercionModel.Model.Types
 import CoercionModel.Model.Walk
 import CoercionModel.Model.Attempts
+import CoercionModel.Model.Builder
 open Lean
 namespace Coercion
 
@@ -27,5 +28,41 @@ instance : ToJson Attempts.Ev where
     | .write st n => Json.mkObj [("l", "write"), ("status", toJson st), ("attempts", n)]
     | .enter k => Json.mkObj [("l", "enter"), ("call", k)]
     | .exit k => Json.mkObj [("l", "exit"), ("call", k)]
+
+deriving instance FromJson, ToJson for GKind
+deriving instance FromJson, ToJson for Builder.ErrClass
+deriving instance FromJson, ToJson for Builder.BlockArgs
+
+def parseCall (j : Json) : Except String Builder.Call := do
+  let c ← j.getObjValAs? String "c"
+  match c with
+  | "up" => return .up
+  | "plan" => return .plan
+  | "err" => return .err
+  | "reset" =>
+    let g := (j.getObjValAs? Nat "group").toOption
+    return .reset (← j.getObjValAs? Bool "blank") (← j.getObjValAs? String "name") (← j.getObjValAs? String "descr") g
+  | "addBlock" => return .addBlock (← j.getObjValAs? Builder.BlockArgs "args")
+  | "addSequence" =>
+    match j.getObjVal? "seq" with
+    | .ok .null | .error _ => return .addSequence none
+    | .ok q => return .addSequence (some (← fromJson? q))
+  | "addAction" =>
+    match j.getObjVal? "action" with
+    | .ok .null | .error _ => return .addAction none
+    | .ok q => return .addAction (some (← fromJson? q))
+  | "addChecks" =>
+    let k : Option GKind := (j.getObjValAs? GKind "kind").toOption
+    match j.getObjVal? "checks" with
+    | .ok .null | .error _ => return .addChecks k none
+    | .ok q => return .addChecks k (some (← fromJson? q, ← j.getObjValAs? Bool "hasNil"))
+  | _ => throw s!"unknown call {c}"
+
+instance : ToJson Builder.Ret where
+  toJson
+    | .ok => "ok"
+    | .err c => Json.str ("err:" ++ (toJson c).compress.replace "\"" "")
+    | .panic => "panic"
+    | .planOut p => Json.mkObj [("plan", toJson p)]
 
 end Coercion
